@@ -254,7 +254,7 @@ def stats_cases(draw):
             'normalization': draw(st.sampled_from(['raw', 'raw', 'log2CPM']))}
 
 
-def cases(per_160=(6, 4)):
+def cases(per_160=(4, 3)):
     """one spec; about per_160[0] mapping triples and per_160[1] statistics triples per 160 cases"""
     n_m, n_s = per_160
     kinds = ['A'] * (160 - n_m - n_s) + ['M'] * n_m + ['S'] * n_s
